@@ -103,7 +103,7 @@ def run_unit(unit, cover=False, threads=4, rlimit=None, keep=True, skip=()):
             res.reason = "verus timeout"
             return res
         # a failing by(compute_only) aborts Verus at the first such lemma: record it as failed, blank it, run again
-        cf = [b for b in split_errors(p.stderr) if b[0] == "error" and re.search(r"simplifies to false|failed to simplify", b[1])]
+        cf = [b for b in split_errors(p.stderr) if b[0] == "error" and re.search(r"simplifies to false|failed to simplify|which evaluates to false", b[1])]
         if not cf or not getattr(unit, "proof_obls", None):
             break
         lines_now = text.split("\n")
